@@ -94,37 +94,67 @@ def rule_R2(text, counts):
     return "\n".join(out)
 
 
+def _enclosing_callee(m, pos):
+    """text before the nearest unmatched '(' to the left of pos (the callee of the enclosing call)"""
+    depth = 0
+    k = pos - 1
+    while k >= 0:
+        ch = m[k]
+        if ch in ")]}":
+            depth += 1
+        elif ch in "([{":
+            if depth == 0:
+                return (m[:k].rstrip(), k) if ch == "(" else (None, k)
+            depth -= 1
+        k -= 1
+    return None, -1
+
+
+def _in_error_ctor(m, pos):
+    """is pos (transitively) inside the argument list of DbError::<ctor>(...), .expect(...), panic!(...)"""
+    while pos > 0:
+        callee, k = _enclosing_callee(m, pos)
+        if k < 0:
+            return False
+        if callee is not None and re.search(r"(DbError::\w+|\.expect|panic!|\.ok_or|\.ok_or_else|\.map_err)$", callee):
+            if re.search(r"(DbError::\w+|\.expect|panic!)$", callee):
+                return True
+        pos = k
+    return False
+
+
 def rule_R1(text, counts):
-    """error-message text -> err_msg()"""
+    """error-message text -> err_msg(): a format!(..) or string literal that is (transitively) an
+    argument of a DbError::* constructor, .expect(..) or panic!(..)"""
     while True:
         m = mask(text)
         mt = re.search(r"\bformat!\s*\(", m)
         if not mt:
             break
         close = match_close(m, mt.end() - 1)
-        before = m[:mt.start()].rstrip()
-        if not (before.endswith("DbError::from(") or before.endswith(".expect(") or before.endswith("panic!(")):
+        if not _in_error_ctor(m, mt.start()):
             raise Unsupported("format! outside an error/panic message")
         text = text[:mt.start()] + "err_msg()" + text[close + 1:]
         counts["R1"] = counts.get("R1", 0) + 1
-    # string literal directly inside DbError::from( ... ) / .expect( ... )
     pos = 0
     while True:
         m = mask(text)
-        mt = re.compile(r"(DbError::from|\.expect)\(\s*\"").search(m, pos)
-        if not mt:
+        q1 = m.find('"', pos)
+        if q1 < 0:
             break
-        q1 = mt.end() - 1
         q2 = m.find('"', q1 + 1)
         if q2 < 0:
             raise Unsupported("unterminated literal")
-        after = m[q2 + 1:].lstrip()
-        if not after.startswith(")"):
-            pos = mt.end()
-            continue
-        text = text[:q1] + "err_msg()" + text[q2 + 1:]
-        counts["R1"] = counts.get("R1", 0) + 1
-        pos = q1
+        if _in_error_ctor(m, q1):
+            start = q1 - 1 if q1 > 0 and text[q1 - 1] in "br" else q1
+            callee, _k = _enclosing_callee(m, q1)
+            # .expect(..)/panic!(..) take a &str, the DbError constructors an owned String
+            rep = "err_str()" if callee is not None and re.search(r"(\.expect|panic!)$", callee) else "err_msg()"
+            text = text[:start] + rep + text[q2 + 1:]
+            counts["R1"] = counts.get("R1", 0) + 1
+            pos = start + 9
+        else:
+            pos = q2 + 1
     return text
 
 
